@@ -44,6 +44,13 @@ def gen(tier, seed, index):
     if index % 20 == 13:
         # a component entered through one member while another member is the only user of an outside nonterminal
         return G.gen_private_dependency_spec(rng, wdomain='log' if grid else 'real'), dict(cls='mixed', grid=grid, forced=['scc-member-with-private-dependency'])
+    if index % 20 == 3:
+        # matrix closure with a sparsely patterned base factor: successive iterates change the size of their storage
+        return G.gen_matrix_closure_spec(rng), dict(cls='linear', grid=False, forced=['patterned-base-dense-recursion'], typed=True)
+    if index % 10 == 7 and cls != 'unitcycle' or index % 20 == 14:
+        # patterned (sparse) factor weights: the iterates' sparsity patterns then change size between iterations
+        spec = G.gen_spec(rng, cls, [f for f in forced if f not in ('zero-weight',)], wdomain='real', grid=False, allow_inf=False, max_nodes=4, typed=True)
+        return spec, dict(cls=cls, grid=False, forced=forced + ['patterned-weights'], typed=True)
     big_scc = (index // 16) % 2 == 1        # SCCs of 3-5 mutually recursive nonterminals with chords
     if index % 11 == 5:
         forced = ['unproductive-nt']
@@ -62,6 +69,9 @@ def condition(spec, cls):
         if ref is not None and info.get('rho', 0) <= 0.9:
             return ref, info
         G.scale_recursive(spec, 0.5)
+        if 'patterns' in spec:
+            from .c03 import rescale_patterns
+            rescale_patterns(spec, 0.5)
     return None, dict(reason='not-conditioned')
 
 
@@ -186,6 +196,19 @@ def check_spec(spec, meta, tier, index):
     start = spec['start']
     shape = G.shape_of(spec, spec['nonterminals'][start])
     nontrivial = False
+    reweighted = None
+    if index % 3 == 0 and cls != 'unitcycle' and not meta.get('typed'):
+        import copy as _copy
+        spec2 = _copy.deepcopy(spec)
+        shrink = (lambda x: x * 0.5) if spec['wdomain'] == 'real' else (lambda x: x + math.log(0.5) if x > -math.inf else x)
+        for t in spec2['terminals']:
+            spec2['weights'][t] = G.map_nested(spec2['weights'][t], shrink)
+        reweighted = dict(spec=spec2)
+        for S in semis:
+            reweighted[S], _inf = R.reference_tables(spec2, S)
+            if reweighted[S] is None:
+                reweighted = None
+                break
     with Hooks() as h:
         tr = Trace(h, SP, MULTI)
         for S in semis:
@@ -202,7 +225,8 @@ def check_spec(spec, meta, tier, index):
                 if method != 'linear' and (index + mi) % 2 == 0:
                     runs.append(dict(tol=tol if S != 'bool' else 0, kmax=[0, 1, 2, 5][(index // 2 + mi) % 4], budget=True))
                 for run in runs:
-                    fgg, _ = G.build_fgg(fggs, spec, S, torch.float64)
+                    builder = G.pattern_weight_builder(fggs, spec, S) if meta.get('typed') else None
+                    fgg, binfo = G.build_fgg(fggs, spec, S, torch.float64, weight_builder=builder)
                     sr = G.make_semiring(fggs, S, torch.float64)
                     tr.reset()
                     out = C.call(lambda: fggs.sum_product(fgg, method=method, semiring=sr, tol=run['tol'], kmax=run['kmax']).to_dense())
@@ -257,7 +281,10 @@ def check_spec(spec, meta, tier, index):
                         msg = C.close_tensor(z, exp, 'float64', rtol=1e-9, atol=bound + 1e-12)
                         # a truly zero entry can never become positive (iteration from below); the converse
                         # (a value below the tol-dependent bound still reported as 0) is within the stated error
-                        if msg is None and bool(((exp == 0) & (z != 0)).any()):
+                        # (plain iteration only: the direct solves inside newton / linear leave rounding noise of the
+                        # order of 1e-16 x the largest entry at exactly-zero positions, which is "up to rounding")
+                        noise = 0.0 if method == 'fixed-point' else 1e-12 * max(1.0, float(exp.abs().max()) if exp.numel() else 0.0)
+                        if msg is None and bool(((exp == 0) & (z.abs() > noise)).any()):
                             msg = f'support differs: obs={z.tolist()} exp={exp.tolist()}'
                     else:
                         bound = 10 * amp_rel * run['tol']
@@ -265,6 +292,26 @@ def check_spec(spec, meta, tier, index):
                     if msg:
                         kind = 'infinite' if 'infinite entries' in msg else 'value'
                         viols.append(C.viol(f'{kind}:{S}:{method}', msg, context=dict(ctx, amplification=amp, reference=infos.get(S)), trace=events[:6]))
+                    elif reweighted is not None and not run['budget'] and S in reweighted and not meta.get('typed'):
+                        # the same grammar object with smaller weights put in place (FiniteFactor.weights setter) and solved
+                        # again: the answer is the least fixed point of the NEW weights, whatever the previous call left behind
+                        spec2, refs2 = reweighted['spec'], reweighted
+                        for t in spec2['terminals']:
+                            fgg.factors[binfo['el'][t].name].weights = torch.tensor(G.weights_in(spec2, t, S), dtype=torch.bool if S == 'bool' else torch.float64)
+                        o2 = C.call(lambda: fggs.sum_product(fgg, method=method, semiring=sr, tol=run['tol'], kmax=run['kmax']).to_dense())
+                        obs['reweighted_runs'] = obs.get('reweighted_runs', 0) + 1
+                        exp2 = torch.tensor(refs2[S][start], dtype=torch.bool if S == 'bool' else torch.float64).reshape(shape)
+                        if not o2['ok']:
+                            viols.append(C.viol(f"exception:reweighted:{S}:{method}:{o2['exc_type']}", f'second call after changing the weights raised {o2["exc"]}', context=ctx))
+                        elif not o2['warnings']:
+                            if S == 'bool':
+                                m2 = C.close_tensor(o2['value'], exp2, 'bool')
+                            elif S == 'viterbi':
+                                m2 = C.close_tensor(o2['value'], exp2, 'float64', rtol=1e-9, atol=1e-9)
+                            else:
+                                m2 = C.close_tensor(o2['value'], exp2, 'float64', rtol=1e-9, atol=10 * (amp if S == 'real' else amp_rel) * run['tol'] + 1e-12)
+                            if m2:
+                                viols.append(C.viol(f'value:reweighted:{S}:{method}', 'after the factor weights of the same FGG object were made smaller: ' + m2, context=ctx))
         hooks = dict(h.count)
     return dict(verdict='violated' if viols else 'held', violations=viols, obs=obs, nontrivial=nontrivial, hooks=hooks, info=cinfo)
 
@@ -273,7 +320,7 @@ def run_case(tier, seed, index, spec=None, meta=None):
     if spec is None:
         spec, meta = gen(tier, seed, index)
     res = check_spec(spec, meta, tier, index)
-    feats = sorted(G.features_of(spec)) + ['grid-weights' if meta['grid'] else 'free-weights']
+    feats = sorted(G.features_of(spec)) + ['grid-weights' if meta['grid'] else 'free-weights'] + (['patterned-weights'] if meta.get('typed') else [])
     res.update(cls=meta['cls'], features=feats, key=G.spec_key(spec), sample=dict(spec=G.describe(spec), meta=meta, reference=res.pop('info', None)))
     for v in res['violations']:
         v['spec'] = spec
